@@ -764,6 +764,9 @@ func (e *Env) call(n *Node) Tri {
 		if v.Kind == "S" && arg.Kind == "S" {
 			return tri(hasPrefix(v.S, arg.S))
 		}
+		if v.Kind == "B" && arg.Kind == "B" {
+			return tri(hasPrefix(string(v.B), string(arg.B))) // a prefix of the bytes
+		}
 		return Unspec
 	case "contains":
 		if !present {
@@ -772,6 +775,8 @@ func (e *Env) call(n *Node) Tri {
 		switch {
 		case v.Kind == "S" && arg.Kind == "S":
 			return tri(containsStr(v.S, arg.S))
+		case v.Kind == "B" && arg.Kind == "B":
+			return tri(containsStr(string(v.B), string(arg.B))) // a run of the bytes
 		case v.Kind == "SS" && arg.Kind == "S":
 			return tri(subsetS([]string{arg.S}, v.SS))
 		case v.Kind == "NS" && arg.Kind == "N":
